@@ -16,9 +16,12 @@ CONSTANTS SharedIds,   \* e.g. {1, 3}: 1 is resident in the recent-write tier, 3
 
 M1 == [k1 |-> 2, k2 |-> 1]
 NoM == [k1 |-> 0, k2 |-> 0]
-Writes == { [t |-> "insert", id |-> i, v |-> v, m |-> M1, merge |-> FALSE, ids |-> <<>>] : i \in SharedIds, v \in {5, 6} }
+M2 == [k1 |-> 1, k2 |-> 2]
+\* the two inserts differ in vector AND metadata (a read that mixes two writes is recognisable); the merging update sets one
+\* key only, so its result depends on the record it was merged into
+Writes == { [t |-> "insert", id |-> i, v |-> v, m |-> IF v = 5 THEN M1 ELSE M2, merge |-> FALSE, ids |-> <<>>] : i \in SharedIds, v \in {5, 6} }
      \cup { [t |-> "delete", id |-> i, v |-> 0, m |-> NoM, merge |-> FALSE, ids |-> <<>>] : i \in SharedIds }
-     \cup { [t |-> "umeta", id |-> i, v |-> 0, m |-> [k1 |-> 1, k2 |-> 2], merge |-> mg, ids |-> <<>>] : i \in SharedIds, mg \in BOOLEAN }
+     \cup { [t |-> "umeta", id |-> i, v |-> 0, m |-> IF mg THEN [k1 |-> 0, k2 |-> 2] ELSE [k1 |-> 1, k2 |-> 2], merge |-> mg, ids |-> <<>>] : i \in SharedIds, mg \in BOOLEAN }
 Reads  == { [t |-> f, id |-> i, v |-> 0, m |-> NoM, merge |-> FALSE, ids |-> <<>>] : f \in {"get", "aware", "getwm"}, i \in SharedIds }
      \cup { [t |-> "bulkget", id |-> 0, v |-> 0, m |-> NoM, merge |-> FALSE, ids |-> <<1, 3>>] }
 Snap   == [t |-> "snapshot", id |-> 0, v |-> 0, m |-> NoM, merge |-> FALSE, ids |-> <<>>]
